@@ -163,6 +163,19 @@ func (h *c19Hist) prune(height uint64) {
 	}
 	h.r.Count("prunes:"+rel, 1)
 	h.log("prune(%d) tip=%d", height, tipH)
+	// "pruning never breaks the node": the manager's other services that read
+	// stored blocks keep answering (queried only here, right after a prune, so
+	// that whatever they cache is as old as the history allows)
+	if p := mon.Guard(func() {
+		h.P.CM.RecommendedFee()
+		h.P.CM.PoolTransactions()
+		h.P.CM.V2PoolTransactions()
+		h.P.CM.History()
+	}); p != nil {
+		h.viol("service-panic-after-prune:"+rel, fmt.Sprint("RecommendedFee / pool listing / History panicked after PruneBlocks: ", p), nil)
+		return
+	}
+	h.r.Count("services_probed_after_prune", 1)
 	h.auditP()
 	if h.bad {
 		return
